@@ -230,6 +230,12 @@ func c10Mutations(typ string, base ref.V) []payMut {
 	}
 	oor("nonce", "len=12", ref.Bytes(make([]byte, 12)), false)
 	for _, c := range []string{"", "a", "a/b", "/A", "/a/B", "/a/", "//", "/É", "/a/É/b", "/Σ", "/crud/Ⅳ", "/msg/Ⓐ", "/Ａ"} {
+		// the same text may have been produced in this process by New / Join, which do not
+		// police their segments: a decoder must refuse it all the same
+		if strings.HasPrefix(c, "/") && len(c) > 1 {
+			_ = command.New(strings.Split(c[1:], "/")...)
+			_ = command.Top().Join(c[1:])
+		}
 		// (non-ASCII capitals, and Roman-numeral / circled / full-width capitals, which are upper-case
 		// by the Unicode property as well as by "changed by lower-casing")
 		oor("cmd", "invalid:"+c, ref.Str(c), true)
